@@ -1191,10 +1191,13 @@ class SSHProcess(SSHStreamSession, Generic[AnyStr]):
     def clear_writer(self, datatype: DataType) -> None:
         """Clear a writer forwarding data from the channel"""
 
+        # Remove the writer first, so that data released by resuming the
+        # channel is buffered for the next writer instead of being handed
+        # to the one being replaced
+        del self._writers[datatype]
+
         if datatype in self._paused_write_streams:
             self.resume_feeding(datatype)
-
-        del self._writers[datatype]
 
     def close(self) -> None:
         """Shut down the process"""
